@@ -32,9 +32,9 @@ for _k in ("Input", "Output", "Bidirectional", "Virtual"):
     _reg_bi(_k)
 
 
-def build_indices(O, first_kind):
+def build_indices(O, first_kind, R=None):
     m = O.mir
-    R = rep()
+    R = R or rep()
     fn = O.find("::build_indices")
     eng = O.engine()
     eng.iter_bound = 3
